@@ -477,7 +477,7 @@ pub mod canon {
         Expr::Unary(syn::ExprUnary { attrs: vec![], op: UnOp::Not(Default::default()), expr: Box::new(paren(peel(e).clone())) })
     }
 
-    struct Logic;
+    pub struct Logic;
     impl VisitMut for Logic {
         fn visit_expr_mut(&mut self, e: &mut Expr) {
             syn::visit_mut::visit_expr_mut(self, e);
@@ -874,6 +874,48 @@ fn c07facts(repo: &Path) -> Result<String, String> {
             "\n/-- `ScopeGraph::resolve_name` (helpers on `self` followed): what one iteration of its loop consults, in source order — 0 the scope's declarations, 1 the exit `if !recurse`, 2 the scope's imports (followed by 0: the import's target), 3 the parent scope -/\ndef resolveNameSteps : List Nat := [{}]\n/-- `resolve_module_part_of_path`: the values given to `recurse`, in source order (initially; after a leading `super`; after every segment) -/\ndef pathRecurseValues : List Bool := [{}]\n",
             steps.iter().map(|x| x.to_string()).collect::<Vec<_>>().join(", "),
             vals.join(", ")
+        ));
+    }
+    // ---- rules special-cased for a built-in type: is the built-in identified by its RESOLVED name
+    // (global scope + identifier), so that a script's own type of the same spelling is not taken for it?
+    {
+        let q = norm(&find::arm_for(&em[0], "QuestionMark")?.body);
+        let global_option = "ResolvedName{scope:ScopeRef::GLOBAL,ident:\"Option\".into()";
+        // (structure from the alpha-renamed call skeleton: a renamed or inlined local does not change it;
+        // the spelling of the identifier from the token text, the skeleton writes every string literal STR)
+        let qe = arms::events_of_expr_arm(&expr_rs, "QuestionMark")?;
+        let try_needs_return = arms::has_seq(&qe, &["letelse(Some($)=ctx.function_return_type)", "else", "return", "error_simple"]);
+        let try_needs_name = arms::has_seq(&qe, &["letelse(Type::Name($)=self.type_info.resolve($))", "ti.resolve($)", "else", "return", "error_simple"]);
+        let try_ident = q.contains("\"Option\"");
+        let try_scope = q.contains(global_option)
+            && (arms::has_seq(&qe, &["if(ResolvedName{scope:ScopeRef::GLOBAL,ident:STR.into()}!=$.name)", "return", "error_simple"])
+                || arms::has_seq(&qe, &["if($.name!=ResolvedName{scope:ScopeRef::GLOBAL,ident:STR.into()})", "return", "error_simple"]));
+        let global_list = "letlist_name=ResolvedName{scope:ScopeRef::GLOBAL,ident:\"List\".into(),};";
+        let concat_ident = add.contains("\"List\"");
+        let concat_scope = add.contains("ifletType::Name(n)=resolved{") && add.contains(global_list) && add.contains("ifn.name==list_name{");
+        let string_by_type = add.contains("ifType::string()==resolved{");
+        out.push_str(&format!(
+            "\n/-- `?`: the enclosing item must have a return type, it must be a type name, its identifier is compared with \"Option\", and the comparison is on the whole resolved name (scope GLOBAL) -/\ndef tryNeedsReturnType : Bool := {}\ndef tryNeedsTypeName : Bool := {}\ndef tryTestsIdent : Bool := {}\ndef tryTestsGlobalScope : Bool := {}\n/-- `+` on lists: the left operand's type name is compared with \"List\" / with the resolved name in the GLOBAL scope -/\ndef concatTestsIdent : Bool := {}\ndef concatTestsGlobalScope : Bool := {}\n/-- `+` on strings: the left operand's type is compared with the built-in `Type::string()` -/\ndef appendTestsBuiltinString : Bool := {}\n",
+            b(try_needs_return), b(try_needs_name), b(try_ident), b(try_scope), b(concat_ident), b(concat_scope), b(string_by_type)
+        ));
+        // ---- the deferred `to_string` obligation of an f-string part
+        let fs = norm(&find::arm_for(&em[0], "FString")?.body);
+        let pushes_unary = fs.contains("self.obligations.push(Obligation::ResolveMethod{id:part.id,receiver:ty.clone(),ident:\"to_string\".into(),parameter_types:vec![ty.clone()],return_type:Type::string(),},)")
+            || fs.contains("self.obligations.push(Obligation::ResolveMethod{id:part.id,receiver:ty.clone(),ident:\"to_string\".into(),parameter_types:vec![ty.clone()],return_type:Type::string(),})");
+        let ro = norm(&find::func(&mod_rs, "resolve_obligations", Some("TypeChecker"))?.block);
+        if std::env::var("C07_EXTRACT_DEBUG").is_ok() {
+            eprintln!("QuestionMark: {q}\nFString: {fs}\nresolve_obligations: {ro}");
+        }
+        let re = arms::events_of_fn(&mod_rs, "resolve_obligations")?;
+        let _ = &ro;
+        let arity = re.iter().any(|e| e == "$&=$.len()==$.parameter_types.len()" || e == "$&=$.parameter_types.len()==$.len()");
+        let params = arms::has_seq(&re, &["for(($,$)<-$.parameter_types.iter().zip($))", "&=", "unify($,$,$)"]);
+        let ret = arms::has_seq(&re, &["&=", "unify($.return_type,$,$)"]);
+        let rejects = arms::has_seq(&re, &["if(!$)", "return", "error_simple"]);
+        let missing = arms::has_seq(&re, &["letelse(Some($)=self.get_method($,$))", "get_method($,$)", "else", "return", "error_no_method_on_type"]);
+        out.push_str(&format!(
+            "\n/-- an f-string part pushes the obligation `to_string : fn(receiver) -> String` -/\ndef fstringAsksUnaryToString : Bool := {}\n/-- `resolve_obligations`: a missing method is an error; the found signature is compared with the required one by number of parameters, pairwise unification of the parameters, unification of the return types; a signature that is not `correct` is an error -/\ndef oblMissingMethodIsError : Bool := {}\ndef oblChecksArity : Bool := {}\ndef oblUnifiesParams : Bool := {}\ndef oblUnifiesReturn : Bool := {}\ndef oblRejectsIncorrect : Bool := {}\n",
+            b(pushes_unary), b(missing), b(arity), b(params), b(ret), b(rejects)
         ));
     }
     out.push_str("\nend RotoV.Gen.C07Facts\n");
@@ -1671,6 +1713,8 @@ mod arms {
         let mut body = super::canon::expr(body);
         let mut r = Renamer::new();
         r.visit_expr_mut(&mut body);
+        // (operands of `==` / `!=` ordered once more, now by their alpha-renamed text: the order must not depend on how a local is called)
+        super::canon::Logic.visit_expr_mut(&mut body);
         let mut w = Walker { ev: vec![], id_locals: &r.id_locals, elide: None };
         w.value(&body);
         w.ev
@@ -1681,6 +1725,7 @@ mod arms {
         let mut block = super::canon::block(block);
         let mut r = Renamer::new();
         r.visit_block_mut(&mut block);
+        super::canon::Logic.visit_block_mut(&mut block);
         let mut w = Walker { ev: vec![], id_locals: &r.id_locals, elide };
         w.visit_block(&block);
         w.ev
@@ -1783,6 +1828,39 @@ mod arms {
         o
     }
 
+    /// events of one function / of one arm of `TypeChecker::expr`, with every local written `$` (for feature
+    /// detection in `c07facts` that survives a renamed or inlined local)
+    pub fn anon(events: &[String]) -> Vec<String> {
+        events
+            .iter()
+            .map(|e| {
+                let mut o = String::new();
+                let mut it = e.chars().peekable();
+                while let Some(c) = it.next() {
+                    o.push(c);
+                    if c == '$' {
+                        while it.peek().is_some_and(|d| d.is_ascii_digit()) {
+                            it.next();
+                        }
+                    }
+                }
+                o
+            })
+            .collect()
+    }
+    pub fn events_of_fn(file: &syn::File, name: &str) -> Result<Vec<String>, String> {
+        Ok(anon(&fn_events(&find::func(file, name, Some("TypeChecker"))?.block, None)))
+    }
+    pub fn events_of_expr_arm(expr_rs: &syn::File, ctor: &str) -> Result<Vec<String>, String> {
+        let expr_fn = find::func(expr_rs, "expr", Some("TypeChecker"))?;
+        let arms = ctor_arms(&the_match(&expr_fn, "expr", "&expr.node")?, "exprArms", true)?;
+        arms.into_iter().find(|(k, _)| k == ctor).map(|(_, e)| anon(&e)).ok_or_else(|| format!("expr: no arm `{ctor}`"))
+    }
+    /// do the events contain this run of consecutive events?
+    pub fn has_seq(evs: &[String], ps: &[&str]) -> bool {
+        !ps.is_empty() && evs.windows(ps.len()).any(|w| w.iter().zip(ps).all(|(a, b)| a == b))
+    }
+
     pub fn c07arms(repo: &Path) -> Result<String, String> {
         let expr_rs = find::parse(repo, "src/typechecker/expr.rs")?;
         let function_rs = find::parse(repo, "src/typechecker/function.rs")?;
@@ -1820,6 +1898,8 @@ mod arms {
             fns.push((name.to_string(), fn_events(&find::func(&function_rs, name, tc)?.block, None)));
         }
         fns.push(("unify".to_string(), fn_events(&find::func(&mod_rs, "unify", tc)?.block, None)));
+        // the deferred `to_string` obligations of f-string parts (Model/TcInfer.lean `resolveObligations`)
+        fns.push(("resolve_obligations".to_string(), fn_events(&find::func(&mod_rs, "resolve_obligations", tc)?.block, None)));
         // what `expr`, `stmt` and `literal` do around the `match` whose arms are listed above
         fns.push(("expr".to_string(), fn_events(&expr_fn.block, Some("expr.node"))));
         fns.push(("stmt".to_string(), fn_events(&stmt_fn.block, Some("stmt.node"))));
@@ -1842,7 +1922,7 @@ mod arms {
             &literal_arms,
         ));
         out.push_str(&lean_table(
-            "whole-function skeletons: block, match_expr, binop, check_arguments, record_fields, path_function_call, method_call, access_field (expr.rs); function, constant, filter_map, test (function.rs); unify (mod.rs, only the fn `unify`, not unify_inner); and expr, stmt, literal (expr.rs) with the `match` whose arms are listed above elided (`...`)",
+            "whole-function skeletons: block, match_expr, binop, check_arguments, record_fields, path_function_call, method_call, access_field (expr.rs); function, constant, filter_map, test (function.rs); unify (mod.rs, only the fn `unify`, not unify_inner), resolve_obligations (mod.rs); and expr, stmt, literal (expr.rs) with the `match` whose arms are listed above elided (`...`)",
             "fnSkeletons",
             &fns,
         ));
